@@ -13,9 +13,12 @@ agreement of the ASCII prefilter with normalization and the forward scans are th
 ASCII haystack with an ASCII needle the whole composition is: `C01_decision_ascii`
 (`fuzzy_match`/`fuzzy_indices`: equal-length shortcut, one-character scan, prefilter window,
 contiguous shortcut, matrix path with the recurrence's completeness, greedy fallback),
-`C01_decision_ascii_greedy`, `C01_entry_points_agree_ascii`.  For a code-point haystack the
-composition is not yet a theorem (pieces: `greedyFwd_isSome`, `setupMatched_eq`, `C01_same_view`);
-it is covered by the correspondence/oracle run. -/
+`C01_decision_ascii_greedy`, `C01_entry_points_agree_ascii`; and for a code-point haystack with a
+needle in either representation: `C01_decision_unicode` (`prefilterNonAscii_spec`: first occurrence
+of the first needle character, last occurrence of the last one, window long enough and containing
+an embedding whenever there is one), `C01_decision_unicode_greedy`, `C01_entry_points_agree_unicode`,
+and `C01_representation_independent`.  The one remaining combination, ASCII-representation haystack
+with a code-point needle, always answers `None` (known finding K1). -/
 namespace NucleoVerif
 open Gen Spec
 
@@ -319,5 +322,368 @@ example :
     (fuzzyMatch cfg (fun _ => default) .ascii .ascii [97, 88, 66] [97, 98]).isSome = true ∧
     (fuzzyMatch cfg (fun _ => default) .ascii .ascii [97, 88, 66] [98, 97]).isSome = false := by
   decide
+
+
+/-! ## code-point haystacks: the decision, the greedy entry points, representation independence -/
+
+theorem findIdx_map (f : Nat → Nat) (p : Nat → Bool) : ∀ (l : List Nat), findIdx p (l.map f) = findIdx (fun x => p (f x)) l := by
+  intro l
+  induction l with
+  | nil => rfl
+  | cons c cs ih => simp only [List.map_cons, findIdx, ih]
+
+/-- list-level form of `subseqB_first` (equality test) -/
+theorem subseqB_first_eq (a : Nat) (as : List Nat) (L : List Nat) :
+    subseqB (a :: as) L = (match findIdx (fun x => x == a) L with | none => false | some i => subseqB as (L.drop (i + 1))) := by
+  have := subseqB_first id (fun x => x == a) a as L (by intro x _; simp)
+  rw [List.map_id] at this
+  rw [this]
+  cases findIdx (fun x => x == a) L with
+  | none => rfl
+  | some i => simp
+
+theorem sublist_reverse_iff (a b : List Nat) : List.Sublist a.reverse b.reverse ↔ List.Sublist a b := List.reverse_sublist
+
+/-- the last needle character's last occurrence bounds the embedding from the right -/
+theorem sublist_take_last (ns L : List Nat) (last : Nat) (hl : ns.getLast? = some last) (hs : List.Sublist ns L) :
+    ∃ q, findIdx (fun x => x == last) L.reverse = some q ∧ q < L.length ∧ List.Sublist ns (L.take (L.length - q)) := by
+  -- ns = ms ++ [last]
+  obtain ⟨ms, rfl⟩ : ∃ ms, ns = ms ++ [last] := by
+    cases h : ns.reverse with
+    | nil => simp at h; subst h; simp at hl
+    | cons x xs =>
+      refine ⟨xs.reverse, ?_⟩
+      have : ns = (x :: xs).reverse := by rw [← h]; simp
+      rw [this] at hl ⊢
+      simp at hl ⊢
+      exact hl
+  have hr : List.Sublist (last :: ms.reverse) L.reverse := by
+    have := (sublist_reverse_iff _ _).mpr hs
+    simpa using this
+  have hb := (subseqB_iff_sublist _ _).mpr hr
+  rw [subseqB_first_eq] at hb
+  cases hq : findIdx (fun x => x == last) L.reverse with
+  | none => rw [hq] at hb; cases hb
+  | some q =>
+    rw [hq] at hb
+    simp only at hb
+    have hql := (findIdx_some _ _ q hq).1
+    simp only [List.length_reverse] at hql
+    obtain ⟨_, ⟨x, hx1, hx2⟩, _⟩ := findIdx_some _ _ q hq
+    refine ⟨q, rfl, hql, ?_⟩
+    -- ms.reverse <+ L.reverse.drop (q+1) = (L.take (len - q - 1)).reverse
+    have hms : List.Sublist ms.reverse (L.reverse.drop (q + 1)) := (subseqB_iff_sublist _ _).mp hb
+    have hd : L.reverse.drop (q + 1) = (L.take (L.length - (q + 1))).reverse := by
+      rw [List.drop_reverse]
+    rw [hd] at hms
+    have hms' : List.Sublist ms (L.take (L.length - (q + 1))) := (sublist_reverse_iff _ _).mp hms
+    -- the element at position len - q - 1 is `last`
+    have hx : L[L.length - q - 1]? = some last := by
+      rw [List.getElem?_reverse (by simpa using hql)] at hx1
+      have : x = last := by simpa using hx2
+      rw [this] at hx1
+      have e : L.length - q - 1 = L.length - 1 - q := by omega
+      rw [e]; exact hx1
+    have hsplit : L.take (L.length - q) = L.take (L.length - (q + 1)) ++ [last] := by
+      have e : L.length - q = (L.length - (q + 1)) + 1 := by omega
+      rw [e, List.take_add_one]
+      have : L.length - (q + 1) = L.length - q - 1 := by omega
+      rw [this, hx]; rfl
+    rw [hsplit]
+    exact List.Sublist.append hms' (List.Sublist.refl _)
+
+theorem getLast?_mem_of_sublist (ns L : List Nat) (last : Nat) (hl : ns.getLast? = some last) (hs : List.Sublist ns L) : last ∈ L := by
+  have : last ∈ ns := List.mem_of_getLast? hl
+  exact hs.subset this
+
+theorem findIdx_none_of_not_mem (a : Nat) : ∀ (L : List Nat), findIdx (fun x => x == a) L = none → a ∉ L := by
+  intro L h hm
+  have := findIdx_none _ L h a hm
+  simp at this
+
+/-- **the code-point prefilter** (`prefilter_non_ascii`, needle of at least two characters): it rejects only
+    non-subsequences, and when it accepts, the window `[start, end)` starts at the first occurrence of the first
+    needle character, is long enough, lies inside the haystack, and contains an embedding whenever there is one -/
+theorem prefilterNonAscii_spec (cfg : Cfg) (h : List Nat) (n0 n1 : Nat) (ns' : List Nat) :
+    match prefilterNonAscii cfg h (n0 :: n1 :: ns') false with
+    | none => subseqB (n0 :: n1 :: ns') (h.map (normChar cfg)) = false
+    | some (start, e) =>
+      start + (n0 :: n1 :: ns').length ≤ e ∧ e ≤ h.length ∧
+      subseqB (n0 :: n1 :: ns') (h.map (normChar cfg)) =
+        subseqB (n0 :: n1 :: ns') (((h.map (normChar cfg)).drop start).take (e - start)) ∧
+      subseqB (n0 :: n1 :: ns') (h.map (normChar cfg)) = subseqB (n1 :: ns') ((h.map (normChar cfg)).drop (start + 1)) := by
+  generalize hL : h.map (normChar cfg) = L
+  have hLlen : L.length = h.length := by rw [← hL]; simp
+  have hfirst := subseqB_first_eq n0 (n1 :: ns') L
+  unfold prefilterNonAscii
+  simp only
+  -- the code's search on `h` is the search for the character itself on the normalized list
+  have hfi : ∀ (a : Nat) (l : List Nat), findIdx (fun c => decide (normChar cfg c = a)) l = findIdx (fun x => x == a) (l.map (normChar cfg)) := by
+    intro a l; rw [findIdx_map]; congr 1
+  rw [hfi, List.map_take, hL]
+  cases hf : findIdx (fun x => x == n0) (L.take (h.length - (n0 :: n1 :: ns').length + 1)) with
+  | none =>
+    simp only
+    cases hfull : findIdx (fun x => x == n0) L with
+    | none => rw [hfull] at hfirst; exact hfirst
+    | some i =>
+      rw [hfull] at hfirst
+      simp only at hfirst
+      cases hs : subseqB (n1 :: ns') (L.drop (i + 1)) with
+      | false => rw [hs] at hfirst; exact hfirst
+      | true =>
+        exfalso
+        have hl := subseqB_length _ _ hs
+        simp only [List.length_drop, List.length_cons] at hl
+        have := findIdx_take _ L i (h.length - (n0 :: n1 :: ns').length + 1) hfull (by simp only [List.length_cons]; omega)
+        rw [this] at hf; cases hf
+  | some start =>
+    simp only
+    have hfull := findIdx_of_take _ L start _ hf
+    rw [hfull] at hfirst
+    simp only at hfirst
+    have hst := (findIdx_some _ L start hfull).1
+    have hlast : (n0 :: n1 :: ns').getLast?.getD n0 = (n1 :: ns').getLast (by simp) := by
+      rw [List.getLast?_cons_cons, List.getLast?_eq_some_getLast (by simp)]; rfl
+    have hlast' : (n1 :: ns').getLast? = some ((n1 :: ns').getLast (by simp)) := List.getLast?_eq_some_getLast (by simp)
+    rw [hlast]
+    generalize (n1 :: ns').getLast (by simp) = last at hlast'
+    rw [hfi, List.map_reverse, List.map_drop, hL]
+    cases hp : findIdx (fun x => x == last) (L.drop (start + 1)).reverse with
+    | none =>
+      simp only
+      rw [hfirst]
+      cases hs : subseqB (n1 :: ns') (L.drop (start + 1)) with
+      | false => rfl
+      | true =>
+        exfalso
+        have hm := getLast?_mem_of_sublist _ _ last hlast' ((subseqB_iff_sublist _ _).mp hs)
+        exact findIdx_none_of_not_mem last _ hp (by simpa using hm)
+    | some p =>
+      simp only
+      have hpl := (findIdx_some _ _ p hp).1
+      simp only [List.length_reverse, List.length_drop] at hpl
+      by_cases hshort : h.length - p - start < (n0 :: n1 :: ns').length
+      · simp only [hshort, if_true]
+        rw [hfirst]
+        cases hs : subseqB (n1 :: ns') (L.drop (start + 1)) with
+        | false => rfl
+        | true =>
+          exfalso
+          obtain ⟨q, hq1, hq2, hq3⟩ := sublist_take_last _ _ last hlast' ((subseqB_iff_sublist _ _).mp hs)
+          rw [hp] at hq1; injection hq1 with hq1; subst hq1
+          have := hq3.length_le
+          simp only [List.length_take, List.length_drop, List.length_cons] at this hshort
+          omega
+      · simp only [hshort, if_false]
+        refine ⟨by omega, by omega, ?_, hfirst⟩
+        rw [hfirst]
+        cases hs : subseqB (n1 :: ns') (L.drop (start + 1)) with
+        | false =>
+          -- not a subsequence of the haystack, hence not of the window
+          cases hw : subseqB (n0 :: n1 :: ns') ((L.drop start).take (h.length - p - start)) with
+          | false => rfl
+          | true =>
+            exfalso
+            have := subseqB_of_sublist_hay _ _ L hw ((List.take_sublist _ _).trans (List.drop_sublist _ _))
+            rw [hfirst, hs] at this; cases this
+        | true =>
+          symm
+          obtain ⟨q, hq1, hq2, hq3⟩ := sublist_take_last _ _ last hlast' ((subseqB_iff_sublist _ _).mp hs)
+          rw [hp] at hq1; injection hq1 with hq1; subst hq1
+          have hd : L.drop start = L[start]'(by omega) :: L.drop (start + 1) := by rw [List.drop_eq_getElem_cons]
+          have h0 : L[start]'(by omega) = n0 := by
+            obtain ⟨x, hx1, hx2⟩ := (findIdx_some _ L start hfull).2.1
+            rw [List.getElem?_eq_getElem (by omega)] at hx1
+            injection hx1 with hx1
+            rw [hx1]; simpa using hx2
+          have hcnt : h.length - p - start = ((L.drop (start + 1)).length - p) + 1 := by
+            simp only [List.length_drop]; omega
+          rw [hd, hcnt, List.take_succ_cons, h0]
+          simp only [subseqB, if_true]
+          exact (subseqB_iff_sublist _ _).mpr hq3
+
+theorem eq_of_subseqB_same_length (n l : List Nat) (hl : l.length = n.length) : subseqB n l = (l == n) := by
+  cases hb : (l == n) with
+  | true => rw [beq_iff_eq] at hb; subst hb; exact (subseqB_iff_sublist _ _).mpr (List.Sublist.refl _)
+  | false =>
+    cases hs : subseqB n l with
+    | false => rfl
+    | true =>
+      have := ((subseqB_iff_sublist _ _).mp hs).eq_of_length (by omega)
+      rw [this] at hb; simp at hb
+
+/-- **`fuzzy_match` / `fuzzy_indices` on a code-point haystack succeed exactly when the needle is a subsequence of the
+    normalized haystack** — every configuration, haystack, and already-normalized needle in either representation. -/
+theorem C01_decision_unicode (cfg : Cfg) (ext : Ext) (nrep : Rep) (h n : List Nat) (hn : n.map (norm cfg nrep) = n) :
+    (fuzzyMatch cfg ext .unicode nrep h n).isSome = subseqB n (normHay cfg .unicode h) := by
+  unfold fuzzyMatch normHay
+  show _ = subseqB n (h.map (normChar cfg))
+  by_cases hlong : n.length > h.length
+  · simp only [hlong, if_true, Option.isSome_none]
+    cases hs : subseqB n (h.map (normChar cfg)) with
+    | false => rfl
+    | true => have := subseqB_length n _ hs; simp at this; omega
+  · simp only [hlong, if_false]
+    cases n with
+    | nil => simp [subseqB]
+    | cons n0 ns =>
+      simp only [List.isEmpty_cons, Bool.false_eq_true, if_false]
+      by_cases heq : (n0 :: ns).length = h.length
+      · simp only [heq, if_true]
+        rw [exactImpl_window cfg ext .unicode nrep h _ _ _ (by simp) hn]
+        simp only [Nat.sub_zero, heq, decide_true, Bool.true_and, List.drop_zero, normHay]
+        have : (h.map (norm cfg .unicode)).take h.length = h.map (norm cfg .unicode) := List.take_of_length_le (by simp)
+        rw [this]
+        exact (eq_of_subseqB_same_length _ _ (by simp only [List.length_map]; omega)).symm
+      · simp only [heq, if_false]
+        have hlt : (n0 :: ns).length < h.length := by omega
+        cases ns with
+        | nil =>
+          -- one character: the prefilter's first occurrence decides
+          simp only
+          unfold prefilterNonAscii
+          simp only [List.length_cons, List.length_nil]
+          have hfi : findIdx (fun c => decide (normChar cfg c = n0)) (h.take (h.length - (0 + 1) + 1)) = findIdx (fun x => x == n0) (h.map (normChar cfg)) := by
+            have e : h.length - (0 + 1) + 1 = h.length := by simp at hlt; omega
+            rw [e, List.take_length, findIdx_map]; congr 1
+          rw [hfi, subseqB_first_eq]
+          cases hf : findIdx (fun x => x == n0) (h.map (normChar cfg)) with
+          | none => rfl
+          | some start =>
+            have := (findIdx_some _ _ start hf).1
+            simp only [List.length_map] at this
+            have hnot : ¬ (h.length - start < 0 + 1) := by omega
+            simp [hnot, subseqB]
+        | cons n1 ns' =>
+          simp only
+          have spec := prefilterNonAscii_spec cfg h n0 n1 ns'
+          cases hpf : prefilterNonAscii cfg h (n0 :: n1 :: ns') false with
+          | none => rw [hpf] at spec; simp only at spec; rw [spec]; rfl
+          | some r =>
+            obtain ⟨start, e⟩ := r
+            rw [hpf] at spec
+            obtain ⟨s1, s2, s3, s4⟩ := spec
+            simp only
+            split
+            · -- contiguous: the window has the needle's length
+              rename_i hcl
+              rw [exactImpl_window cfg ext .unicode nrep h _ _ _ (by simp) hn]
+              simp only [hcl, decide_true, Bool.true_and, normHay]
+              rw [s3]
+              exact (eq_of_subseqB_same_length _ _ (by
+                simp only [List.length_take, List.length_drop, List.length_map]; omega)).symm
+            · unfold fuzzyOptimal
+              split
+              · -- matrix path
+                rw [optimalDP_isSome, windowCols_map_ch]
+                have hview : ((h.drop start).take (e - start)).map (cnorm cfg .unicode) = ((h.map (normChar cfg)).drop start).take (e - start) := by
+                  rw [← List.map_drop, ← List.map_take]
+                  apply List.map_congr_left
+                  intro x _
+                  exact C16_cnorm_eq_norm cfg .unicode x (by simp)
+                rw [hview, s3]
+              · -- greedy fallback
+                unfold fuzzyGreedyInner
+                simp only [reduceCtorEq, false_and, if_false, List.drop_succ_cons, List.drop_zero]
+                have hg := greedyFwd_isSome cfg .unicode (n1 :: ns') (h.drop (start + 1)) 0
+                rw [s4, ← List.map_drop]
+                cases hgf : greedyFwd cfg .unicode (n1 :: ns') (h.drop (start + 1)) 0 with
+                | none => rw [hgf] at hg; simp at hg ⊢; exact hg
+                | some k => rw [hgf] at hg; simp at hg ⊢; exact hg
+
+theorem greedyInner_unicode_isSome (cfg : Cfg) (ext : Ext) (nrep : Rep) (h : List Nat) (n0 n1 : Nat) (ns' : List Nat) (start : Nat) :
+    (fuzzyGreedyInner cfg ext .unicode nrep h (n0 :: n1 :: ns') start (start + 1)).isSome =
+      (greedyFwd cfg .unicode (n1 :: ns') (h.drop (start + 1)) 0).isSome := by
+  unfold fuzzyGreedyInner
+  simp only [reduceCtorEq, false_and, if_false, List.drop_succ_cons, List.drop_zero]
+  cases greedyFwd cfg .unicode (n1 :: ns') (h.drop (start + 1)) 0 <;> rfl
+
+/-- the greedy entry points on a code-point haystack decide the same relation -/
+theorem C01_decision_unicode_greedy (cfg : Cfg) (ext : Ext) (nrep : Rep) (h n : List Nat) (hn : n.map (norm cfg nrep) = n) :
+    (fuzzyGreedy cfg ext .unicode nrep h n).isSome = subseqB n (normHay cfg .unicode h) := by
+  unfold fuzzyGreedy normHay
+  show _ = subseqB n (h.map (normChar cfg))
+  by_cases hlong : n.length > h.length
+  · simp only [hlong, if_true, Option.isSome_none]
+    cases hs : subseqB n (h.map (normChar cfg)) with
+    | false => rfl
+    | true => have := subseqB_length n _ hs; simp at this; omega
+  · simp only [hlong, if_false]
+    cases n with
+    | nil => simp [subseqB]
+    | cons n0 ns =>
+      simp only [List.isEmpty_cons, Bool.false_eq_true, if_false]
+      by_cases heq : (n0 :: ns).length = h.length
+      · simp only [heq, if_true]
+        rw [exactImpl_window cfg ext .unicode nrep h _ _ _ (by simp) hn]
+        simp only [Nat.sub_zero, heq, decide_true, Bool.true_and, List.drop_zero, normHay]
+        have : (h.map (norm cfg .unicode)).take h.length = h.map (norm cfg .unicode) := List.take_of_length_le (by simp)
+        rw [this]
+        exact (eq_of_subseqB_same_length _ _ (by simp only [List.length_map]; omega)).symm
+      · simp only [heq, if_false]
+        generalize hL : h.map (normChar cfg) = L
+        have hLlen : L.length = h.length := by rw [← hL]; simp
+        have hfirst := subseqB_first_eq n0 ns L
+        unfold prefilterNonAscii
+        simp only
+        have hfi : findIdx (fun c => decide (normChar cfg c = n0)) (h.take (h.length - (n0 :: ns).length + 1)) =
+            findIdx (fun x => x == n0) (L.take (h.length - (n0 :: ns).length + 1)) := by
+          rw [← hL, ← List.map_take, findIdx_map]; congr 1
+        rw [hfi]
+        cases hf : findIdx (fun x => x == n0) (L.take (h.length - (n0 :: ns).length + 1)) with
+        | none =>
+          simp only
+          cases hfull : findIdx (fun x => x == n0) L with
+          | none => rw [hfull] at hfirst; rw [hfirst]; rfl
+          | some i =>
+            rw [hfull] at hfirst
+            simp only at hfirst
+            cases hs : subseqB ns (L.drop (i + 1)) with
+            | false => rw [hs] at hfirst; rw [hfirst]; rfl
+            | true =>
+              exfalso
+              have hl := subseqB_length _ _ hs
+              simp only [List.length_drop] at hl
+              have hi := (findIdx_some _ L i hfull).1
+              have := findIdx_take _ L i (h.length - (n0 :: ns).length + 1) hfull (by simp only [List.length_cons]; omega)
+              rw [this] at hf; cases hf
+        | some start =>
+          simp only
+          have hfull := findIdx_of_take _ L start _ hf
+          rw [hfull] at hfirst
+          simp only at hfirst
+          have hst := (findIdx_some _ L start hfull).1
+          by_cases hshort : h.length - start < (n0 :: ns).length
+          · simp only [hshort, if_true]
+            rw [hfirst]
+            cases hs : subseqB ns (L.drop (start + 1)) with
+            | false => simp
+            | true =>
+              exfalso
+              have hl := subseqB_length _ _ hs
+              simp only [List.length_drop, List.length_cons] at hl hshort
+              omega
+          · simp only [hshort, if_false, if_true]
+            rw [hfirst]
+            cases ns with
+            | nil => simp [fuzzyGreedyInner, subseqB]
+            | cons n1 ns' =>
+              rw [greedyInner_unicode_isSome, greedyFwd_isSome]
+              have hd : (h.drop (start + 1)).map (norm cfg .unicode) = L.drop (start + 1) := by rw [← hL, List.map_drop]; rfl
+              rw [hd]
+
+/-- **all four entry points agree on a code-point haystack** -/
+theorem C01_entry_points_agree_unicode (cfg : Cfg) (ext : Ext) (nrep : Rep) (h n : List Nat) (hn : n.map (norm cfg nrep) = n) :
+    (fuzzyMatch cfg ext .unicode nrep h n).isSome = (fuzzyGreedy cfg ext .unicode nrep h n).isSome := by
+  rw [C01_decision_unicode cfg ext nrep h n hn, C01_decision_unicode_greedy cfg ext nrep h n hn]
+
+/-- **the decision does not depend on the representation**: an ASCII text gives the same answer whether haystack and
+    needle are held as bytes or as code points (except an ASCII-representation haystack with a code-point needle: K1) -/
+theorem C01_representation_independent (cfg : Cfg) (ext : Ext) (nrep : Rep) (h n : List Nat)
+    (hasc : ∀ x ∈ h, x < 128) (hn : ∀ c ∈ n, normAscii cfg c = c) (hn' : n.map (norm cfg nrep) = n) :
+    (fuzzyMatch cfg ext .ascii .ascii h n).isSome = (fuzzyMatch cfg ext .unicode nrep h n).isSome := by
+  rw [C01_decision_ascii cfg ext h n hasc hn, C01_decision_unicode cfg ext nrep h n hn', C01_normHay_rep cfg h hasc]
+
 
 end NucleoVerif
